@@ -65,6 +65,7 @@ func verifyFuncMode(P *Program, name string, refute bool) (rep *FuncReport) {
 		rep.Problems = append(rep.Problems, "contract target not found: "+name)
 		return
 	}
+	rep.Problems = append(rep.Problems, P.Contracts.Broken[name]...)
 	m := newMachine(P, fn, fc)
 	m.refute = refute
 	m.onlyProp = onlyProperty
